@@ -77,6 +77,45 @@ def compile_sample(cs):
     return fails, len(jobs)
 
 
+LATTICE = ['clock', 'ts_begin', 'ts_end', 'discarded', 'seq_num', 'type_id', 'er_ts', 'magic', 'uuid', 'dst_id', 'common_ctx',
+           'spec_ctx', 'payload']
+
+
+def lattice_config(on):
+    """a small configuration with exactly the features of `on` enabled (every other one explicitly disabled): each
+    combination makes the templates emit a different set of declarations and statements"""
+    import yaml
+    from harness import gencfg
+    u = lambda n: {'class': 'uint', 'size': n}
+    clk = 'clock' in on
+    tf = {'magic-field-type': True if 'magic' in on else False, 'uuid-field-type': True if 'uuid' in on else False,
+          'data-stream-type-id-field-type': u(8) if 'dst_id' in on else False}
+    pkt = {'total-size-field-type': u(32), 'content-size-field-type': u(32),
+           'beginning-timestamp-field-type': u(64) if clk and 'ts_begin' in on else False,
+           'end-timestamp-field-type': u(64) if clk and 'ts_end' in on else False,
+           'discarded-event-records-counter-snapshot-field-type': u(16) if 'discarded' in on else False,
+           'sequence-number-field-type': u(16) if 'seq_num' in on else False}
+    er = {'type-id-field-type': u(8) if 'type_id' in on else False,
+          'timestamp-field-type': u(64) if clk and 'er_ts' in on else False}
+    st = lambda n: {'class': 'struct', 'members': [{n: {'field-type': u(16)}}, {n + '2': {'field-type': {'class': 'str'}}}]}
+    e = {}
+    if 'spec_ctx' in on:
+        e['specific-context-field-type'] = st('s')
+    if 'payload' in on:
+        e['payload-field-type'] = st('p')
+    d = {'$features': {'packet': pkt, 'event-record': er}, 'event-record-types': {'e': e}}
+    if clk:
+        d['$default-clock-type-name'] = 'c'
+    if 'common_ctx' in on:
+        d['event-record-common-context-field-type'] = st('c')
+    tt = {'native-byte-order': 'le', '$features': tf, 'data-stream-types': {'s': d}}
+    if 'uuid' in on:
+        tt['uuid'] = '79e49040-21b5-42d4-a873-677261696e65'
+    if clk:
+        tt['clock-types'] = {'c': {'$c-type': 'uint64_t'}}
+    return gencfg.HEADER + yaml.safe_dump({'trace': {'type': tt}}, sort_keys=False, default_flow_style=False)
+
+
 def run(c):
     ob = c.proof_obligations()
     c.assumptions += ASSUME
@@ -109,8 +148,47 @@ def run(c):
         for (qq, impl, model, lab) in bad[:2]:
             c.violation({'property': 'C14', 'kind': 'prototype differs from the documented one', 'query': qq,
                          'header': impl, 'documented': model, 'config_yaml': cs.text})
+    # the feature lattice: every on/off combination of the 13 packet / event record / trace features changes which
+    # declarations and statements the templates emit; a sample of the 2^13 combinations (all singletons, all
+    # complements of singletons, random ones) is generated and compiled under the strict flags
+    import random as _random
+    lrnd = _random.Random(c.seed + 1414)
+    combos = [frozenset(LATTICE)] + [frozenset([x]) for x in LATTICE] + [frozenset(LATTICE) - {x} for x in LATTICE]
+    combos += [frozenset(x for x in LATTICE if lrnd.random() < 0.5) for _ in range(24 if c.tier == 'quick' else 400)]
+    combos = list(dict.fromkeys(combos))
+    lat = {'combinations': len(combos), 'of': 2 ** len(LATTICE), 'compiled': 0, 'rejected_by_front_end': 0, 'diagnostics': 0}
+
+    def one(i_on):
+        i, on = i_on
+        try:
+            made = rt.make_case(900000 + i, work, yaml_text=lattice_config(on))
+        except Exception as e:      # a combination the front end refuses (configuration error) is not C14's subject
+            return ('rejected', on, str(e)[:200])
+        cs = made[0]
+        if not isinstance(cs, rt.Case):
+            return ('nobuild', on, made)
+        return ('ok', on, cs, compile_sample(cs))
+    with ThreadPoolExecutor(max_workers=min(common.NPROC, 12)) as ex:
+        res = list(ex.map(one, enumerate(combos)))
+    for r in res:
+        if r[0] == 'rejected':
+            lat['rejected_by_front_end'] += 1
+        elif r[0] == 'nobuild':
+            if r[2][0] == 'compile-failed' and not c.violations:
+                c.violation({'property': 'C14', 'kind': 'generated tracer does not compile with the documented prototypes',
+                             'features_on': sorted(r[1]), 'config_yaml': r[2][1], 'log': r[2][2][:1500]})
+        else:
+            lat['compiled'] += 1
+            fails, nj = r[3]
+            ncompiles += nj
+            if fails:
+                lat['diagnostics'] += 1
+                if not c.violations:
+                    c.violation({'property': 'C14', 'kind': 'strict compilation diagnostic', 'diagnostic': fails[0],
+                                 'features_on': sorted(r[1]), 'config_yaml': r[2].text})
     c.coverage.update({
         'correspondence': {'ctype_table': {'entries': ntab, 'differences': len(bad_tab), 'exhaustive': True},
+                           'feature_lattice': lat,
                            'prototypes': {'compared': ncmp, 'differences': nbad},
                            'strict_compiles': ncompiles, 'configs': len(cases),
                            'non_conformance_warnings_Wall_Wextra': sum(getattr(cs, 'nwarn', 0) for cs in cases)},
